@@ -36,6 +36,15 @@ type World struct {
 	// before the actor is considered disabled until the world changes.
 	MaxAbortsAtVersion int
 	stopping           bool
+	// FaultBudget > 0 enables injected refusals ("buggify"): any environment resource may
+	// refuse an operation of an attempt with ErrCriticalSectionAborted, as every real
+	// resource may (time-out, lost connection). In the specification that is no step at
+	// all: the runtime must roll the attempt back, archetype locals included, and retry.
+	// At most FaultBudget refusals per run; the position is a decision of the stream.
+	FaultBudget int
+	refuseAt    int  // ordinal of the environment operation to refuse in the attempt in flight (-1 none, 8 = pre-commit)
+	opN         int
+	injected    bool // the attempt in flight was refused by injection
 }
 
 func NewWorld(w *sim.World) *World {
@@ -59,6 +68,12 @@ func (wd *World) Set(name string, v tla.Value) {
 }
 
 func (wd *World) begin() {
+	wd.opN, wd.refuseAt, wd.injected = 0, -1, false
+	if wd.FaultBudget > 0 && !wd.stopping {
+		if v := wd.W.ChooseP(sim.KFault, 10, 0.85); v > 0 {
+			wd.refuseAt = v - 1
+		}
+	}
 	wd.work = make(map[string]tla.Value, len(wd.Vars))
 	for k, v := range wd.Vars {
 		wd.work[k] = v
@@ -99,7 +114,32 @@ func (wd *World) NewRes(name string, read func(*World, []tla.Value) (tla.Value, 
 }
 
 func (r *Res) Abort(distsys.ArchetypeInterface) chan struct{}   { r.wd.abort(); return nil }
-func (r *Res) PreCommit(distsys.ArchetypeInterface) chan error  { return nil }
+func (r *Res) PreCommit(distsys.ArchetypeInterface) chan error {
+	if r.wd.refuseAt == 8 && !r.wd.injected {
+		r.wd.refuse("precommit")
+		ch := make(chan error, 1)
+		ch <- Abort
+		return ch
+	}
+	return nil
+}
+
+func (wd *World) refuse(what string) {
+	wd.injected = true
+	wd.FaultBudget--
+	wd.W.Fault("env_resource_refuses_" + what)
+}
+
+// refusedNow decides whether the environment operation about to run is the one to refuse.
+func (wd *World) refusedNow(what string) bool {
+	n := wd.opN
+	wd.opN++
+	if wd.refuseAt == n && wd.refuseAt < 8 && !wd.injected {
+		wd.refuse(what)
+		return true
+	}
+	return false
+}
 func (r *Res) Commit(distsys.ArchetypeInterface) chan struct{}  { r.wd.commit(); return nil }
 func (r *Res) Close() error                                     { return nil }
 func (r *Res) Index(_ distsys.ArchetypeInterface, i tla.Value) (distsys.ArchetypeResource, error) {
@@ -114,6 +154,9 @@ func (r *Res) ReadValue(distsys.ArchetypeInterface) (tla.Value, error) {
 	if r.Read == nil {
 		panic("env: read of write-only resource " + r.Name)
 	}
+	if r.wd.refusedNow("read") {
+		return tla.Value{}, Abort
+	}
 	return r.Read(r.wd, r.idx)
 }
 func (r *Res) WriteValue(_ distsys.ArchetypeInterface, v tla.Value) error {
@@ -122,6 +165,9 @@ func (r *Res) WriteValue(_ distsys.ArchetypeInterface, v tla.Value) error {
 	}
 	if r.Write == nil {
 		panic("env: write of read-only resource " + r.Name)
+	}
+	if r.wd.refusedNow("write") {
+		return Abort
 	}
 	return r.Write(r.wd, r.idx, v)
 }
@@ -275,7 +321,7 @@ func (wd *World) Step(a *Actor) (committed bool) {
 	if committed {
 		a.Commits++
 		a.abortsAt = 0
-	} else if !a.done {
+	} else if !a.done && !wd.injected { // an injected refusal says nothing about whether the action is enabled
 		if a.abortsV != wd.Version {
 			a.abortsV = wd.Version
 			a.abortsAt = 0
